@@ -97,7 +97,7 @@ def _chunk(arg):
     import sys
 
     sys.path.insert(0, os.environ.get("VERIF_REPO", "/repo"))
-    from lib.guard import limits, time_limit
+    from lib.guard import HardTimeout, limits, time_limit
     from sqlglot.dialects.dialect import Dialect
 
     limits()
@@ -111,7 +111,7 @@ def _chunk(arg):
         try:
             with time_limit(10):
                 c = observe(kind, v, dialect, d, opts)
-        except Exception as e:
+        except (Exception, HardTimeout) as e:
             out.append({"crash": f"{type(e).__name__}: {e}", "meta": {"kind": kind, "v": v, "dialect": dialect, "opts": optname}})
             continue
         if c is None:
